@@ -1,4 +1,5 @@
 """C13 -- a sharded cache is observably one cache with a fixed key-to-shard mapping."""
+import io
 import json
 import math
 import os
@@ -35,6 +36,9 @@ ASSUMPTIONS = [
     'culls against its own share of the limit, which the property allows',
     'timeouts are injected at the shard-method boundary for _remove; real lock timeouts are C14',
     'NaN, unencodable text and streams are outside the key domain',
+    'two-handle settings histories: a write through a handle whose cull_limit is not 0 is done as one write into every shard at a standing clock '
+    '(cull_limit 1000 > number of items), because a shard removes only its own expired / evictable items; size limits are only 0 (always over) or 2**40 '
+    '(never over); the value a FanoutCache reports for size_limit (a share) is not compared with the unsharded one',
 ]
 
 SHARD_COUNTS = [1, 2, 3, 8, 13]
@@ -141,34 +145,53 @@ def gen_pool(rng, size, finding=False):
 
 class Ref:
     def __init__(self):
-        self.d = {}          # ident -> [key, value, expire_time|None, tag]   (insertion ordered)
+        self.d = {}          # ident -> [key, value, expire_time|None, tag, stored-from-a-stream]   (insertion ordered)
         self.hits = 0
         self.misses = 0
 
     def _live(self, e, now):
         return e is not None and (e[2] is None or e[2] > now)
 
-    def set(self, k, v, ttl, tag, now):
+    def set(self, k, v, ttl, tag, now, stream=False):
         e = self.d.get(ident(k))
         exp = None if ttl is None else now + ttl
         if e is None:
-            self.d[ident(k)] = [k, v, exp, tag]
+            self.d[ident(k)] = [k, v, exp, tag, stream]
         else:
-            e[1:] = [v, exp, tag]
+            e[1:] = [v, exp, tag, stream]
         return True
 
-    def add(self, k, v, ttl, tag, now):
+    def add(self, k, v, ttl, tag, now, stream=False):
         if self._live(self.d.get(ident(k)), now):
             return False
-        return self.set(k, v, ttl, tag, now)
+        return self.set(k, v, ttl, tag, now, stream)
 
-    def get(self, k, now, count=True):
+    @staticmethod
+    def _meta(e, o):
+        """The extra tuple members a lookup with expire_time=True / tag=True returns (documented order: value, expire_time, tag)."""
+        o = o or {}
+        m = ()
+        if o.get('et'):
+            m += (None if e is None else e[2],)
+        if o.get('tg'):
+            m += (None if e is None else e[3],)
+        return m
+
+    @staticmethod
+    def _miss(o):
+        o = o or {}
+        if o.get('dflt', 'sent') == 'omit':      # no default given: None is returned
+            return ('val', None) + Ref._meta(None, o)
+        return ('missing',) + Ref._meta(None, o)
+
+    def get(self, k, now, count=True, o=None):
         e = self.d.get(ident(k))
         if self._live(e, now):
             self.hits += count
-            return ('val', e[1])
+            kind = 'handle' if (o or {}).get('rd') and e[4] else 'val'      # read=True: an open file for a value kept in a file
+            return (kind, e[1]) + self._meta(e, o)
         self.misses += count
-        return ('missing',)
+        return self._miss(o)
 
     def contains(self, k, now):
         return self._live(self.d.get(ident(k)), now)
@@ -190,17 +213,17 @@ class Ref:
         if default is None:
             return ('exc', 'KeyError')
         if e is None:
-            self.d[ident(k)] = [k, default + delta, None, None]
+            self.d[ident(k)] = [k, default + delta, None, None, False]
         else:
-            e[1:] = [default + delta, None, None]
+            e[1:] = [default + delta, None, None, False]
         return ('val', default + delta)
 
-    def pop(self, k, now):
+    def pop(self, k, now, o=None):
         e = self.d.get(ident(k))
         if self._live(e, now):
             del self.d[ident(k)]
-            return ('val', e[1])
-        return ('missing',)
+            return ('val', e[1]) + self._meta(e, o)
+        return self._miss(o)
 
     def delete(self, k, now):
         return self.pop(k, now)[0] == 'val'
@@ -231,10 +254,13 @@ class Ref:
 
 
 OPS = ['set', 'set', 'set', 'setitem', 'add', 'get', 'get', 'getitem', 'contains', 'touch', 'incr', 'decr', 'pop', 'delete',
-       'delitem', 'len', 'iter', 'reversed', 'expire', 'evict', 'clear', 'stats', 'volume', 'check']
+       'delitem', 'len', 'iter', 'reversed', 'expire', 'evict', 'clear', 'stats', 'volume', 'check', 'get', 'pop', 'read']
 TTLS = [None, None, 0.5, 1.5, 2.5, 7.5]
 TAGS = [None, None, 't1', 't2']
 MISSING = ('missing',)
+# how a lookup passes its default: the harness sentinel by keyword / positionally / no default at all (None comes back) / another object
+DEFAULT_MODES = ['sent', 'sent', 'pos', 'omit', 'obj']
+RETRY_OPS = ('set', 'add', 'touch', 'incr', 'decr', 'get', 'pop', 'delete')
 
 
 def gen_history(rng, nops, npool):
@@ -246,6 +272,11 @@ def gen_history(rng, nops, npool):
         o = {'op': op, 'k': rng.randrange(npool), 'adv': rng.choice([0, 0, 0, 1, 1, 2, 5])}
         if op in ('set', 'add', 'setitem'):
             o['v'] = rng.choice([rng.randrange(-5, 100), rng.randrange(-5, 100), 'v%d' % rng.randrange(5)])
+        if op in ('set', 'add') and rng.random() < 0.2:
+            # read=True: the value is handed over as a binary stream and kept in a file
+            o['rd'] = True
+            o['vb'] = bytes(rng.randrange(256) for _ in range(rng.choice([0, 1, 5, 40]))).hex()
+            del o['v']
         if op in ('set', 'add', 'touch'):
             o['ttl'] = rng.choice(TTLS)
         if op in ('set', 'add'):
@@ -253,12 +284,38 @@ def gen_history(rng, nops, npool):
         if op in ('incr', 'decr'):
             o['delta'] = rng.choice([1, 1, 2, -3, 10])
             o['default'] = rng.choice([0, 0, 5, None])
+        if op in ('get', 'pop') and rng.random() < 0.6:
+            # every optional parameter of the lookups: expire_time / tag alone and together, read (get), the ways of giving a default
+            et, tg = rng.choice([(True, False), (False, True), (True, True), (False, False)])
+            if et:
+                o['et'] = True
+            if tg:
+                o['tg'] = True
+            if op == 'get' and rng.random() < 0.4:
+                o['rd'] = True
+            o['dflt'] = rng.choice(DEFAULT_MODES)
+        if op in RETRY_OPS and rng.random() < 0.15:
+            o['retry'] = rng.random() < 0.7
         if op == 'evict':
             o['tag'] = rng.choice(['t1', 't2', 't3'])
         if op in ('expire', 'evict', 'clear'):
             o['fault'] = rng.choice([None, None, [rng.randrange(13), rng.randrange(0, 3), rng.randrange(1, 3)]])   # shard, partial, times
         h.append(o)
     return h
+
+
+def op_label(o, full=False):
+    """Operation name with the optional flags it was called with (the violation signature is per flag variant);
+    full: also the way the default was given and retry (evidence histogram)."""
+    s = o['op']
+    for f, name in (('et', 'expire_time'), ('tg', 'tag'), ('rd', 'read')):
+        if o.get(f):
+            s += '+' + name
+    if full and o.get('dflt', 'sent') != 'sent' and o['op'] in ('get', 'pop'):
+        s += '+default:' + o['dflt']
+    if full and 'retry' in o:
+        s += '+retry'
+    return s
 
 
 def out(f):
@@ -276,16 +333,64 @@ def out(f):
 def same_out(a, b):
     if a[0] != b[0]:
         return False
-    if a[0] == 'val':
-        return val.same(a[1], b[1])
+    if a[0] in ('val', 'handle'):
+        return val.same(a[1], b[1]) and a[2:] == b[2:]      # a[2:]: expire time / tag a lookup returns beside the value
     return a[1:] == b[1:]
 
 
 SENT = object()
+OTHER_DEFAULT = ('a default that is never stored',)
 
 
-def lookup_out(x):
-    return MISSING if x is SENT else ('val', x)
+def lookup(c, meth, key, o):
+    """get / pop with the optional parameters the operation asks for; the outcome is
+    (kind, value, *metadata): kind 'val' | 'handle' (an open file: its content) | 'missing' (the default object came back)."""
+    mode = o.get('dflt', 'sent')
+    dflt = OTHER_DEFAULT if mode == 'obj' else SENT
+    args, kw = [key], {}
+    if mode == 'pos':
+        args.append(dflt)
+    elif mode != 'omit':
+        kw['default'] = dflt
+    if o.get('rd'):
+        kw['read'] = True
+    if o.get('et'):
+        kw['expire_time'] = True
+    if o.get('tg'):
+        kw['tag'] = True
+    if 'retry' in o:
+        kw['retry'] = o['retry']
+    x = out(lambda: getattr(c, meth)(*args, **kw))
+    if x[0] != 'val':
+        return x
+    r = x[1]
+    nmeta = bool(o.get('et')) + bool(o.get('tg'))
+    meta = ()
+    if nmeta:
+        if type(r) is not tuple or len(r) != 1 + nmeta:
+            return ('malformed', repr(r)[:80])
+        r, meta = r[0], tuple(r[1:])
+    if mode != 'omit' and r is dflt:
+        return ('missing',) + meta
+    if hasattr(r, 'read') and hasattr(r, 'close'):
+        try:
+            data = r.read()
+        finally:
+            r.close()
+        return ('handle', data) + meta
+    return ('val', r) + meta
+
+
+def model_view(o, a):
+    """The operation and outcome as the Coq dictionary model (value-only lookups) sees them."""
+    op = o['op']
+    if op == 'read':
+        return dict(o, op='getitem'), (('val', a[1]) if a[0] == 'handle' else a)
+    if op in ('get', 'pop') and a[0] in ('val', 'handle', 'missing'):
+        if a[0] == 'missing' or (o.get('dflt') == 'omit' and a[1] is None):
+            return o, MISSING
+        return o, ('val', a[1])
+    return o, a
 
 
 class Flaky:
@@ -313,20 +418,27 @@ class Flaky:
         delattr(self.shard, self.name)
 
 
+def stored_value(o):
+    return bytes.fromhex(o['vb']) if 'vb' in o else o['v']
+
+
 def apply_op(target, kind, o, key, now, stats_on):
     """kind: 'fanout' | 'cache' | 'ref'.  Returns a comparable outcome."""
     op = o['op']
     if kind == 'ref':
         r = target
         if op == 'set':
-            return ('val', r.set(key, o['v'], o['ttl'], o['tag'], now))
+            return ('val', r.set(key, stored_value(o), o['ttl'], o['tag'], now, bool(o.get('rd'))))
         if op == 'setitem':
             r.set(key, o['v'], None, None, now)
             return ('val', None)
         if op == 'add':
-            return ('val', r.add(key, o['v'], o['ttl'], o['tag'], now))
+            return ('val', r.add(key, stored_value(o), o['ttl'], o['tag'], now, bool(o.get('rd'))))
         if op == 'get':
-            return r.get(key, now, stats_on)
+            return r.get(key, now, stats_on, o)
+        if op == 'read':
+            x = r.get(key, now, stats_on, {'rd': True})
+            return x if x[0] != 'missing' else ('exc', 'KeyError')
         if op == 'getitem':
             x = r.get(key, now, stats_on)
             return x if x[0] == 'val' else ('exc', 'KeyError')
@@ -337,7 +449,7 @@ def apply_op(target, kind, o, key, now, stats_on):
         if op in ('incr', 'decr'):
             return r.incr(key, o['delta'] if op == 'incr' else -o['delta'], o['default'], now)
         if op == 'pop':
-            return r.pop(key, now)
+            return r.pop(key, now, o)
         if op == 'delete':
             return ('val', r.delete(key, now))
         if op == 'delitem':
@@ -356,32 +468,40 @@ def apply_op(target, kind, o, key, now, stats_on):
             return ('val', (r.hits, r.misses) if stats_on else (0, 0))
         return ('skip',)
     c = target
-    if op == 'set':
-        return out(lambda: c.set(key, o['v'], expire=o['ttl'], tag=o['tag']))
+    rt = {'retry': o['retry']} if 'retry' in o else {}
+    if op in ('set', 'add'):
+        kw = dict(rt)
+        if o.get('rd'):
+            kw['read'] = True
+        return out(lambda: getattr(c, op)(key, io.BytesIO(stored_value(o)) if o.get('rd') else o['v'], expire=o['ttl'], tag=o['tag'], **kw))
     if op == 'setitem':
         def f():
             c[key] = o['v']
         return out(f)
-    if op == 'add':
-        return out(lambda: c.add(key, o['v'], expire=o['ttl'], tag=o['tag']))
     if op == 'get':
-        x = out(lambda: c.get(key, default=SENT))
-        return lookup_out(x[1]) if x[0] == 'val' else x
+        return lookup(c, 'get', key, o)
+    if op == 'read':
+        x = out(lambda: c.read(key))
+        if x[0] == 'val' and hasattr(x[1], 'read') and hasattr(x[1], 'close'):
+            try:
+                return ('handle', x[1].read())
+            finally:
+                x[1].close()
+        return x
     if op == 'getitem':
         return out(lambda: c[key])
     if op == 'contains':
         return out(lambda: key in c)
     if op == 'touch':
-        return out(lambda: c.touch(key, expire=o['ttl']))
+        return out(lambda: c.touch(key, expire=o['ttl'], **rt))
     if op == 'incr':
-        return out(lambda: c.incr(key, o['delta'], o['default']))
+        return out(lambda: c.incr(key, o['delta'], o['default'], **rt))
     if op == 'decr':
-        return out(lambda: c.decr(key, o['delta'], o['default']))
+        return out(lambda: c.decr(key, o['delta'], o['default'], **rt))
     if op == 'pop':
-        x = out(lambda: c.pop(key, default=SENT))
-        return lookup_out(x[1]) if x[0] == 'val' else x
+        return lookup(c, 'pop', key, o)
     if op == 'delete':
-        return out(lambda: c.delete(key))
+        return out(lambda: c.delete(key, **rt))
     if op == 'delitem':
         def f():
             del c[key]
@@ -482,21 +602,22 @@ def run_history(case, base=None, mrec=None):
                         extra = list(fc)
                     elif o['op'] == 'reversed':
                         extra = list(reversed(fc))
-                    mrec.append((o, o['k'] % len(keys), now, a, extra))
+                    mo, ma = model_view(o, a)
+                    mrec.append((mo, o['k'] % len(keys), now, ma, extra))
                 if case.get('cull') and o['op'] in ('len', 'iter', 'reversed', 'expire', 'clear', 'evict'):
                     # with culling on, a shard culls only its own expired items: the number of expired leftovers
                     # (which len / iteration / the counts include) legitimately differs from one cache
                     b = c = a
                 if agg:
-                    bad = {'at': i, 'op': o['op'], 'why': agg[0], 'kind': 'aggregate'}
+                    bad = {'at': i, 'op': op_label(o), 'why': agg[0], 'kind': 'aggregate'}
                     break
                 if a[0] == 'skip':
                     continue
                 if not same_out(a, c):
-                    bad = {'at': i, 'op': o['op'], 'why': 'FanoutCache returned %r, one dictionary returns %r' % (a, c), 'kind': 'reference'}
+                    bad = {'at': i, 'op': op_label(o), 'why': 'FanoutCache returned %r, one dictionary returns %r' % (a, c), 'kind': 'reference'}
                     break
                 if not same_out(a, b):
-                    bad = {'at': i, 'op': o['op'], 'why': 'FanoutCache returned %r, a single Cache returned %r' % (a, b), 'kind': 'single-cache'}
+                    bad = {'at': i, 'op': op_label(o), 'why': 'FanoutCache returned %r, a single Cache returned %r' % (a, b), 'kind': 'single-cache'}
                     break
         finally:
             fc.close()
@@ -566,6 +687,10 @@ def monitor_equivalence(ctx, res, nhist, nops, hist, modelcases=None):
         for k in pool:
             hist['key_classes'][key_class(k)] = hist['key_classes'].get(key_class(k), 0) + 1
         hist['faults'] += sum(1 for o in case['ops'] if o.get('fault'))
+        for o in case['ops']:
+            lab = op_label(o, full=True)
+            if '+' in lab:
+                hist['variants'][lab] = hist['variants'].get(lab, 0) + 1
         res.count(['hist', n, case['keys_hex'], case['ops']], nontrivial=len(record) > 5)
         if hno == 0:
             res.sample({'history': {'shards': n, 'keys': case['keys'], 'ops': case['ops'][:8], 'outcomes': [repr(a)[:60] for _, a in record[:8]]}})
@@ -578,6 +703,210 @@ def monitor_equivalence(ctx, res, nhist, nops, hist, modelcases=None):
             case = dict(case, failure=bad)
             res.violations.append(fw.Violation(sig_of(case, bad), 'history on %d shards, operation %d (%s): %s' % (
                 case['shards'], bad['at'], bad['op'], bad['why']), case))
+
+
+# ---------------------------------------------------------------------------
+# settings seen through two handles: changing or reloading a setting covers every shard
+
+
+SET_DOMAIN = {'statistics': [0, 1], 'cull_limit': [0, 1000], 'eviction_policy': ['none', 'least-recently-stored'], 'size_limit': [0, 2 ** 40]}
+SET_KEYS = sorted(SET_DOMAIN)
+SET_POOL = ['a', 'b', 'k1', 'k2', 'k3', 'key', b'a', b'key', 0, 1, 2, 3, 7, 10, 255, (1,), ('a', 2), None]
+
+
+def gen_settings_case(rng, n, nsteps):
+    """Two handles A, B on one directory.  Steps: reset(key, value), reset(key) (reload), stats(enable, reset), writes,
+    lookups, len, iteration, expire() through either handle, under the virtual clock."""
+    init = {k: rng.choice(v) for k, v in SET_DOMAIN.items()}
+    pool = rng.sample(SET_POOL, 8)
+    steps = []
+    while len(steps) < nsteps:
+        h = rng.choice('AB')
+        other = 'B' if h == 'A' else 'A'
+        r = rng.random()
+        adv = rng.choice([0, 0, 1, 3])
+        if r < 0.16:
+            key = rng.choice(SET_KEYS)
+            steps.append({'op': 'reset', 'h': h, 'key': key, 'value': rng.choice(SET_DOMAIN[key]), 'adv': adv})
+            if rng.random() < 0.6:
+                steps.append({'op': 'reload', 'h': other, 'key': key, 'adv': 0})
+        elif r < 0.28:
+            steps.append({'op': 'reload', 'h': h, 'key': rng.choice(SET_KEYS), 'adv': adv})
+        elif r < 0.36:
+            steps.append({'op': 'stats', 'h': h, 'enable': rng.random() < 0.6, 'reset': rng.random() < 0.15, 'adv': adv})
+            if rng.random() < 0.6:
+                steps.append({'op': 'reload', 'h': other, 'key': 'statistics', 'adv': 0})
+        elif r < 0.62:
+            steps.append({'op': 'put', 'h': h, 'k': rng.randrange(len(pool)), 'v': rng.randrange(100), 'ttl': rng.choice([None, None, 2.0, 5.0]), 'adv': adv})
+        elif r < 0.74:
+            steps.append({'op': 'get', 'h': h, 'k': rng.randrange(len(pool) + 2), 'adv': adv})
+        elif r < 0.84:
+            steps.append({'op': 'getall', 'h': h, 'adv': adv})
+        elif r < 0.90:
+            steps.append({'op': 'len', 'h': h, 'adv': adv})
+        elif r < 0.96:
+            steps.append({'op': 'keys', 'h': h, 'adv': adv})
+        else:
+            steps.append({'op': 'expire', 'h': h, 'adv': adv})
+    return {'check': 'settings', 'shards': n, 'init': init, 'keys': [repr(k) for k in pool],
+            'keys_hex': [pickle.dumps(k, protocol=4).hex() for k in pool], 'steps': steps}
+
+
+def sweep_keys(disk, n, count=3):
+    """count text keys for every shard index (routing = Disk.hash % shards, which monitor_placement checks on its own)."""
+    per = {i: [] for i in range(n)}
+    j = 0
+    while any(len(v) < count for v in per.values()):
+        k = 'sweep-%d' % j
+        j += 1
+        i = core.Disk.hash(disk, k) % n
+        if len(per[i]) < count:
+            per[i].append(k)
+    return per
+
+
+def run_settings(case, base=None):
+    """Drive two FanoutCache handles on one directory and two Cache handles on another with the same steps.
+    Reference for the settings (from the documentation of reset): a handle loads every setting when it is opened,
+    reset(key, value) stores the value for everybody and in this handle, reset(key) reloads the stored value into this
+    handle, stats(enable=) is reset('statistics', enable).  Reference for everything else: the unsharded Cache pair.
+
+    A write through a handle whose cull_limit is not 0 removes expired (and, over the size limit, evictable) items of
+    the shard it goes to -- a single Cache removes them from the whole cache.  Such a write is therefore done as a
+    sweep: one write into every shard (same keys written to the single Cache) with the clock standing still and a
+    cull_limit above the number of items, after which both have removed exactly the same items."""
+    keys = [pickle.loads(bytes.fromhex(x)) for x in case['keys_hex']]
+    n = case['shards']
+    own = base is None
+    base = base or tempfile.mkdtemp(prefix='c13s-')
+    d1 = tempfile.mkdtemp(prefix='f-', dir=base)
+    d2 = tempfile.mkdtemp(prefix='c-', dir=base)
+    clock = instr.Clock(1000.25)
+    init = dict(case['init'])
+    bad, soft, record = None, None, []
+    with instr.Installed(clock, extra_modules=[fanout_mod]):
+        F = {'A': diskcache.FanoutCache(d1, shards=n, **init)}
+        C = {'A': diskcache.Cache(d2, **init)}
+        # the second handle gives no setting but size_limit (FanoutCache always writes one: finding C18-F1)
+        F['B'] = diskcache.FanoutCache(d1, shards=n, size_limit=init['size_limit'])
+        C['B'] = diskcache.Cache(d2, size_limit=init['size_limit'])
+        stored = dict(init)
+        mem = {'A': dict(init), 'B': dict(init)}
+        sweeps = sweep_keys(F['A'].disk, n)
+        nsweep = 0
+        try:
+            for i, st in enumerate(case['steps']):
+                clock.advance(st.get('adv', 0))
+                h, op = st['h'], st['op']
+                f, c = F[h], C[h]
+                want = None
+                if op == 'reset':
+                    a, b = out(lambda: f.reset(st['key'], st['value'])), out(lambda: c.reset(st['key'], st['value']))
+                    stored[st['key']] = mem[h][st['key']] = st['value']
+                    want = ('val', st['value'])
+                elif op == 'reload':
+                    a, b = out(lambda: f.reset(st['key'])), out(lambda: c.reset(st['key']))
+                    mem[h][st['key']] = stored[st['key']]
+                    want = ('val', stored[st['key']])
+                elif op == 'stats':
+                    a = out(lambda: tuple(f.stats(enable=st['enable'], reset=st['reset'])))
+                    b = out(lambda: tuple(c.stats(enable=st['enable'], reset=st['reset'])))
+                    stored['statistics'] = mem[h]['statistics'] = int(st['enable'])
+                elif op == 'put':
+                    ks = [keys[st['k'] % len(keys)]]
+                    if mem[h]['cull_limit'] != 0:
+                        home = core.Disk.hash(f.disk, ks[0]) % n
+                        ks += [sweeps[j][nsweep % len(sweeps[j])] for j in range(n) if j != home]
+                        nsweep += 1
+                    a = ('val', [out(lambda: f.set(k, st['v'], expire=st['ttl'], retry=True)) for k in ks])
+                    b = ('val', [out(lambda: c.set(k, st['v'], expire=st['ttl'], retry=True)) for k in ks])
+                elif op == 'get':
+                    k = keys[st['k']] if st['k'] < len(keys) else 'absent-%d' % st['k']
+                    a, b = out(lambda: f.get(k, retry=True)), out(lambda: c.get(k, retry=True))
+                elif op == 'getall':
+                    a = ('val', [out(lambda: f.get(k, retry=True)) for k in keys])
+                    b = ('val', [out(lambda: c.get(k, retry=True)) for k in keys])
+                elif op == 'len':
+                    a, b = out(lambda: len(f)), out(lambda: len(c))
+                elif op == 'keys':
+                    a, b = ('keys', sorted(repr(ident(k)) for k in f)), ('keys', sorted(repr(ident(k)) for k in c))
+                elif op == 'expire':
+                    a, b = out(lambda: f.expire(retry=True)), out(lambda: c.expire(retry=True))
+                else:
+                    continue
+                record.append((h, op, a))
+                if op in ('reset', 'reload'):
+                    per = [getattr(s, st['key']) for s in f._shards]
+                    if soft is None and any(not val.same(x, per[0]) for x in per):
+                        soft = {'at': i, 'op': op, 'kind': 'shards_differ',
+                                'why': 'after %s.reset(%r%s) the shards of that handle hold %r' % (
+                                    h, st['key'], '' if op == 'reload' else ', %r' % (st['value'],), per)}
+                    if st['key'] == 'size_limit':       # a shard reports its share: only the stored value is decided here
+                        if op == 'reset' and not same_out(a, b):
+                            bad = {'at': i, 'op': op, 'kind': 'single-cache', 'why': 'FanoutCache.reset returned %r, Cache.reset %r' % (a, b)}
+                            break
+                        continue
+                    if a[0] != 'val' or a[1] != want[1]:
+                        bad = {'at': i, 'op': op, 'kind': 'reference', 'why': '%s.reset(%r%s) returned %r; the value stored last is %r' % (
+                            h, st['key'], '' if op == 'reload' else ', ...', a, want[1])}
+                        break
+                if not same_out(a, b):
+                    bad = {'at': i, 'op': op, 'kind': 'single-cache',
+                           'why': 'handle %s: FanoutCache %s -> %r, a single Cache driven by the same two-handle history -> %r' % (h, op, a, b)}
+                    break
+        finally:
+            for x in list(F.values()) + list(C.values()):
+                x.close()
+    shutil.rmtree(d1, ignore_errors=True)
+    shutil.rmtree(d2, ignore_errors=True)
+    if own:
+        shutil.rmtree(base, ignore_errors=True)
+    if bad is not None and soft is not None:
+        bad = dict(bad, why=bad['why'] + ' (earlier, step %d: %s)' % (soft['at'], soft['why']))
+    return (bad or soft), record
+
+
+def shrink_settings(case, base, budget=45):
+    bad, _ = run_settings(case, base)
+    if bad is None:
+        return case, None
+    steps = list(case['steps'])[:bad['at'] + 1]
+    i = len(steps) - 2
+    while i >= 0 and budget > 0:
+        trial = steps[:i] + steps[i + 1:]
+        budget -= 1
+        b, _ = run_settings(dict(case, steps=trial), base)
+        if b is not None and b['kind'] == bad['kind']:
+            steps, bad = trial, b
+        i -= 1
+    return dict(case, steps=steps), bad
+
+
+def monitor_settings(ctx, res, nhist, nsteps, hist):
+    base = ctx.scratch('c13set')
+    nshrunk = 0
+    seen = set()
+    for hno in range(nhist):
+        n = SHARD_COUNTS[hno % len(SHARD_COUNTS)]
+        case = gen_settings_case(ctx.rng, n, nsteps)
+        bad, record = run_settings(case, base)
+        res.count(['settings', n, case['init'], case['keys_hex'], case['steps']], nontrivial=len(record) > 5)
+        for (h, op, a) in record:
+            hist['settings_steps'][op] = hist['settings_steps'].get(op, 0) + 1
+        if hno == 0:
+            res.sample({'settings_history': {'shards': n, 'init': case['init'], 'steps': case['steps'][:8]}})
+        if bad is not None:
+            if nshrunk < 3:
+                nshrunk += 1
+                small, sbad = shrink_settings(case, base)
+                if sbad is not None:
+                    case, bad = small, sbad
+            sig = 'settings_two_handles:%s:%s' % (bad['kind'], bad['op'])
+            if sig in seen:
+                continue
+            seen.add(sig)
+            res.violations.append(fw.Violation(sig, 'two handles on one FanoutCache directory with %d shards, step %d (%s): %s' % (
+                n, bad['at'], bad['op'], bad['why']), dict(case, failure=bad)))
 
 
 # ---------------------------------------------------------------------------
@@ -929,7 +1258,7 @@ def model_history_term(n, pool, mrec):
         if op in KEYED_M:
             e = fw.copt(instr.ticks(o.get('ttl')))
             tg = 'None' if o.get('tag') is None else '(Some %s)' % val.py_term(o['tag'])
-            v = val.py_term(o['v']) if 'v' in o else '(VInt 0)'
+            v = val.py_term(stored_value(o)) if ('v' in o or 'vb' in o) else '(VInt 0)'
             ops.append('FKeyed %s (E %s %s %s %s %s %s %s)' % (KEYED_M[op], val.py_term(pool[ki]), v, e, tg, fw.cz(o.get('delta', 0)),
                                                           fw.copt(o.get('default')), fw.cz(t)))
         elif op == 'len':
@@ -981,15 +1310,22 @@ def model_histories(ctx, res, modelcases, limit):
 
 def run(ctx, big=False):
     res = fw.Result()
-    res.rule = ('(1) random histories over the FanoutCache API (set/[]=/add/get/[]/in/touch/incr/decr/pop/delete/del/len/iter/reversed/expire/evict/clear/'
+    res.rule = ('(1) random histories over the FanoutCache API (set/[]=/add/get/[]/in/read/touch/incr/decr/pop/delete/del/len/iter/reversed/expire/evict/clear/'
                 'stats/volume/check, tags, ttl under the virtual clock, injected Timeouts inside _remove) on 1,2,3,8,13 shards, each compared call by '
                 'call with a reference dictionary-with-expiry and with one diskcache.Cache driven by the same history, aggregates compared with the '
                 'shards themselves; key pools drawn from str, bytes, int64, pickled ints, floats, None/bool/tuples, bytes equal to pickles; int/float '
-                'equal pairs only in their own stream.  (2) every key of a fixed list stored on every shard count: the NNN directory whose cache.db '
+                'equal pairs only in their own stream.  Every optional parameter of the key-addressed methods is drawn: get/pop with expire_time, tag '
+                '(each alone and together: the returned tuple is compared member by member), get with read=True (open files compared by content), '
+                'default given by keyword / positionally / omitted / another object, set/add with read=True (value handed over as a stream), expire, '
+                'tag, incr/decr default None/0/5, retry on every method that has it.  (1b) two-handle settings histories: handles A and B on one '
+                'directory, reset(key, value) / reset(key) / stats(enable, reset) on statistics, cull_limit, eviction_policy, size_limit through '
+                'either handle interleaved with writes, lookups, len, iteration and expire(), compared step by step with two handles on one '
+                'unsharded Cache driven by the same steps and with the documented meaning of reset (the value stored last is what a reload '
+                'returns); after every reset the setting must be the same on every shard of the handle.  (2) every key of a fixed list stored on every shard count: the NNN directory whose cache.db '
                 'receives the row is %03d of Disk.hash % shards; the list hashed and written/read in 4 fresh interpreters with different PYTHONHASHSEED '
                 'and compared with fixtures/routing.json.  (3) model hash/shard/shard_dir/shard_size_limit/adler32 against the implementation.  '
                 'non-trivial = history with more than 5 executed operations, placement with more than one shard; distinct = distinct case content.')
-    hist = {'ops': {}, 'outcomes': {}, 'shards': {}, 'streams': {}, 'key_classes': {}, 'keys_per_shard': {}, 'placements': 0, 'faults': 0}
+    hist = {'ops': {}, 'outcomes': {}, 'shards': {}, 'streams': {}, 'key_classes': {}, 'keys_per_shard': {}, 'placements': 0, 'faults': 0, 'variants': {}, 'settings_steps': {}}
     obs = {'keys': [], 'dirs': [], 'limits': []}
     thorough = (not ctx.quick) or big
     modelcases = []
@@ -998,6 +1334,7 @@ def run(ctx, big=False):
     else:
         nhist, nops = 2400, 70
     monitor_equivalence(ctx, res, nhist, nops, hist, modelcases)
+    monitor_settings(ctx, res, (90 if big else 60) if ctx.quick else 400, 30, hist)
     keys = fixed_keys() + FINDING_KEYS
     if thorough:
         keys = keys + [ctx.rng.randrange(-2 ** 63, 2 ** 63) for _ in range(60)] + \
@@ -1016,6 +1353,7 @@ def run(ctx, big=False):
     res.witnessed['route_int_float_equal'] = witness_int_float()
     res.extra.update({'operation_histogram': hist['ops'], 'outcome_histogram': hist['outcomes'], 'histories_by_shard_count': hist['shards'],
                       'histories_by_stream': hist['streams'], 'key_class_histogram': hist['key_classes'],
+                      'optional_parameter_variants': hist['variants'], 'two_handle_settings_steps': hist['settings_steps'],
                       'keys_per_shard': hist['keys_per_shard'], 'placements': hist['placements'], 'injected_timeouts': hist['faults'],
                       'interpreters': hist.get('interpreters', 0), 'exhaustive': False})
     return res
@@ -1033,6 +1371,12 @@ def replay(payload):
         for (op, a) in record:
             print('  %-9s -> %r' % (op, a))
         print('history on %d shards: %s' % (case['shards'], 'agrees with one cache' if bad is None else bad['why']))
+        return bad is None
+    if kind == 'settings':
+        bad, record = run_settings(case)
+        for (h, op, a) in record:
+            print('  %s %-7s -> %r' % (h, op, a))
+        print('two handles on %d shards: %s' % (case['shards'], 'agree with two handles on one Cache' if bad is None else bad['why']))
         return bad is None
     if kind == 'placement' and 'key_hex' in case:
         k = pickle.loads(bytes.fromhex(case['key_hex']))
